@@ -415,6 +415,29 @@ def rule_prefix_boundary(ctx, r5):
             r5.saw()
             d = deps(fn, pat)
             sep = any('/' in c for c in d.consts)
+            if not sep and '{closure' in k:
+                # the prefix may be captured: look at what the enclosing function put into the closure
+                parent = k.rsplit('::{closure', 1)[0]
+                prec = fx.fns.get(parent)
+                if prec is not None:
+                    pf = F(prec)
+                    for pb in pf.g:
+                        for pst in pf.bbs[pb]['s']:
+                            if pst[0] == 'A' and pst[2][0] == 'agg' and pst[2][1] == 'closure:' + k:
+                                for cap in pst[2][2]:
+                                    if any('/' in c for c in deps(pf, cap).consts):
+                                        sep = True
+                    # a closure defined inside another closure of the same function: one more level
+                    if not sep and '{closure' in parent:
+                        gp = fx.fns.get(parent.rsplit('::{closure', 1)[0])
+                        if gp is not None:
+                            gf = F(gp)
+                            for gb in gf.g:
+                                for gst in gf.bbs[gb]['s']:
+                                    if gst[0] == 'A' and gst[2][0] == 'agg' and gst[2][1] == 'closure:' + parent:
+                                        for cap in gst[2][2]:
+                                            if any('/' in c for c in deps(gf, cap).consts):
+                                                sep = True
             key = 'dir-prefix-boundary|%s' % k.split('WebIdeState::')[1]
             if sep:
                 r5.ok(key, loc=fn.loc(b))
